@@ -257,9 +257,9 @@ theorem init_bnd (c : Cfg) : BndAll c (init c).banks := by
   rw [(List.mem_replicate.1 hst).2]
   exact StOk_none c
 
-theorem run_bnd (c : Cfg) (ops : List Op) (hok : ∀ op ∈ ops, opOk op) (hw : c.width = 1) : BndAll c (run c ops).banks := by
+theorem run_bnd (c : Cfg) (ops : List Op) (hok : ∀ op ∈ ops, opOk c op) (hw : c.width = 1) : BndAll c (run c ops).banks := by
   unfold run
-  have : ∀ (ops : List Op) (s : State), Inv c s → LI c s → BndAll c s.banks → (∀ op ∈ ops, opOk op) →
+  have : ∀ (ops : List Op) (s : State), Inv c s → LI c s → BndAll c s.banks → (∀ op ∈ ops, opOk c op) →
       BndAll c (ops.foldl (step c) s).banks := by
     intro ops
     induction ops with
@@ -385,15 +385,17 @@ theorem commit_ok (it : Item) (log : List Req) (h : maskOk it.req = true) : ∃ 
 
 /-- with enough room in the port buffer the whole post-pipeline buffer is answered -/
 theorem finalizePost_all (c : Cfg) : ∀ (post : List Item) (log : List Req) (out resp : List Rsp),
-    (∀ it ∈ post, maskOk it.req = true) → out.length + post.length ≤ c.top →
+    (∀ it ∈ post, maskOk it.req = true ∧ capErr c.cap it.req.addr it.req.size = false) →
+    out.length + post.length ≤ c.top →
     (finalizePost c post log out resp).post = [] := by
   intro post
   induction post with
   | nil => intro log out resp _ _; rfl
   | cons it rest ih =>
     intro log out resp hok hroom
-    obtain ⟨⟨it', log'⟩, hcm⟩ := commit_ok it log (hok it (by simp))
-    simp only [finalizePost, hcm]
+    obtain ⟨⟨it', log'⟩, hcm⟩ := commit_ok it log (hok it (by simp)).1
+    have hcf : capFault c it = false := by simp [capFault, (hok it (by simp)).2]
+    simp only [finalizePost, hcm, hcf, Bool.false_eq_true, if_false]
     have : out.length < c.top := by simp only [List.length_cons] at hroom; omega
     rw [if_pos this]
     exact ih _ _ _ (fun x hx => hok x (by simp [hx])) (by simp only [List.length_append, List.length_cons, List.length_nil] at hroom ⊢; omega)
@@ -406,6 +408,8 @@ theorem finalizePost_out_le (c : Cfg) : ∀ (post : List Item) (log : List Req) 
   | cons it rest ih =>
     intro log out resp
     simp only [finalizePost]
+    split
+    · simp
     cases hcm : commit it log with
     | none => simp
     | some p =>
@@ -451,13 +455,13 @@ theorem finalizeFrom_postEmpty_keep (c : Cfg) (j : Nat) : ∀ (ks : List Nat) (s
     · exact ih _ (finalizeAt_postEmpty_keep c s j j' h)
 
 theorem items_ok (c : Cfg) (s : State) (h : Inv c s) (hl : LI c s) (j : Nat) (b : Bank) (hb : s.banks[j]? = some b) :
-    ∀ it ∈ b.post, maskOk it.req = true := by
+    ∀ it ∈ b.post, maskOk it.req = true ∧ capErr c.cap it.req.addr it.req.size = false := by
   intro it hit
   have : it.req ∈ s.arrived.filter (inB c j) := by
     rw [← h.r j]
     simp only [chain, bankChain, hb, List.mem_append, List.mem_map]
     exact Or.inr ⟨it, Or.inl (by simp [bItems, hit]), rfl⟩
-  exact hl.ok _ (List.mem_filter.1 this).1
+  exact ⟨hl.ok _ (List.mem_filter.1 this).1, hl.cap _ (List.mem_filter.1 this).1⟩
 
 theorem finalizeAt_room (c : Cfg) (s : State) (j : Nat) (h : Inv c s) (hl : LI c s) (hb : BndAll c s.banks)
     (hroom : s.outBuf.length + c.post ≤ c.top) :
@@ -524,6 +528,8 @@ theorem finalizePost_blocked (c : Cfg) (post : List Item) (log : List Req) (out 
   | nil => exact ⟨rfl, rfl⟩
   | cons it rest =>
     simp only [finalizePost]
+    split
+    · exact ⟨rfl, rfl⟩
     cases commit it log with
     | none => exact ⟨rfl, rfl⟩
     | some p =>
@@ -559,7 +565,9 @@ theorem tick_blocked (c : Cfg) (s : State) (hfull : c.top ≤ s.outBuf.length) :
   simp only
   split
   · exact ⟨a1, a2⟩
-  · exact ⟨a1, a2⟩
+  · split
+    · exact ⟨a1, a2⟩
+    · exact ⟨a1, a2⟩
 
 def noOut : Op → Prop
   | .out _ => False
@@ -594,6 +602,21 @@ theorem blocked_fold (c : Cfg) : ∀ (ops : List Op) (s : State), (∀ op ∈ op
     obtain ⟨a1, a2, t2, ht2⟩ := ih (step c s op) (fun o ho => hno o (by simp [ho])) (by rw [hstep.2]; exact hfull)
     simp only [List.foldl_cons]
     exact ⟨a1.trans hstep.1, a2.trans hstep.2, t1 ++ t2, by rw [ht2, ht1, List.append_assoc]⟩
+
+theorem run_append (c : Cfg) (ops1 ops2 : List Op) : run c (ops1 ++ ops2) = ops2.foldl (step c) (run c ops1) := by
+  simp [run, List.foldl_append]
+
+/-- under the liveness side conditions no tick panics -/
+theorem tick_nofault (c : Cfg) (s : State) (h : Inv c s) (hl : LI c s) : (tickFlags c s).2 = false := by
+  obtain ⟨hf, hl1, _⟩ := finalizeFrom_w c 0 (List.range s.banks.length) s h hl
+  have h1 := finalize_inv c s h
+  have hcf : convFault c (tickDelays c (tickPipes c (finalize c s).1)).pending = false := by
+    apply convFault_false
+    intro r hr
+    exact hl1.bel r (pending_sub_arrived c _ h1 r hr)
+  unfold tickFlags
+  simp only [finalize] at hcf
+  simp only [finalize, hf, Bool.false_eq_true, if_false, hcf]
 
 /-! ### counting the ticks in which the port refuses -/
 
